@@ -136,6 +136,7 @@ CHECKS = {
             dict(name="seq", run="^TestC13IndexQueries$", checks=(800, 6000), shards=(4, 16), shrinktime="20s"),
             dict(name="conc", run="^TestC13Concurrent$", checks=(200, 2000), shards=(2, 8), shrinktime="20s"),
             dict(name="backlog", run="^TestC13Backlog$", checks=(3, 20), shards=(4, 8), shrinktime="5s"),
+            dict(name="inplace", run="^TestC13InPlaceUpdates$", checks=(150, 2000), shards=(2, 8), shrinktime="5s"),
             dict(name="binkeys", run="^TestC13BinaryKeys$", checks=(150, 2000), shards=(2, 8), shrinktime="5s"),
             dict(name="nilvalues", run="^TestC13NilValues$", checks=(150, 2000), shards=(2, 8), shrinktime="5s"),
             dict(name="many", run="^TestC13ManyValues$", checks=(12, 120), shards=(2, 8), shrinktime="5s"),
@@ -149,6 +150,7 @@ CHECKS = {
             dict(name="seq", run="^TestC14QueryChange$", checks=(600, 5000), shards=(4, 16), shrinktime="20s"),
             dict(name="handler", run="^TestC14Handler$", checks=(300, 3000), shards=(4, 16), shrinktime="20s"),
             dict(name="backlog", run="^TestC14Backlog$", checks=(3, 20), shards=(4, 8), shrinktime="5s"),
+            dict(name="inplace", run="^TestC14InPlaceUpdates$", checks=(150, 2000), shards=(2, 8), shrinktime="5s"),
             dict(name="binkeys", run="^TestC14BinaryKeys$", checks=(150, 2000), shards=(2, 8), shrinktime="5s"),
             dict(name="concorder", run="^TestC14ConcurrentOrder$", checks=(200, 2000), shards=(2, 8), shrinktime="10s"),
             dict(name="handlermock", run="^TestC14HandlerMockEvents$", checks=(1000, 10000), shards=(2, 8), shrinktime="20s"),
